@@ -1,11 +1,14 @@
 from vrun import U
 
+import os
 UNITS = []
+# debugging aid: C11_DEFS='NO_KNOWN_F_C11_FOLDED_NEVER_SET=1;X=2' adds -D style defines to every C11 unit
+XD = dict(kv.split('=', 1) for kv in os.environ.get('C11_DEFS', '').split(';') if '=' in kv)
 INC = ['c11_flags.h']
 
 # ---- 1. decision table of the (static) request-header post-processor ------------------------------------
 R1 = ['htp_table_get_c', 'htp_header_has_token', 'htp_parse_content_length', 'htp_parse_header_hostport', 'bstr_cmp_nocase',
-      'bstr_cmp_c_nocasenorzero', 'bstr_dup', 'bstr_free', 'htp_tx_req_destroy_decompressors', 'htp_gzip_decompressor_create',
+      'bstr_cmp_c_nocasenorzero', 'bstr_dup', 'htp_tx_req_destroy_decompressors', 'htp_gzip_decompressor_create',
       'htp_parse_ct_header', 'htp_parse_cookies_v0', 'htp_parse_authorization', 'htp_connp_req_receiver_finalize_clear', 'htp_hook_run_all']
 A1 = ['every callee replaced by a stub that answers with an unconstrained prophecy ghost: header lookup (any of the five headers present or absent, '
       'independently: this is the field-order independence, the lookup itself is units htp_table_get*), token search (OK/ERROR), '
@@ -15,10 +18,10 @@ A1 = ['every callee replaced by a stub that answers with an unconstrained prophe
       'that cannot write tx->flags, the transfer coding or the host fields',
       'tx != NULL, tx->request_hostname == NULL on entry (first and only call per request; hybrid-mode re-entry out of scope)',
       'header values handed to the parsers are inline bstrs of capacity C11_VALCAP']
-UNITS.append(U(name='htp_tx_process_request_headers', props=['C11', 'C01'], kind='contract', src=['htp_transaction.c'],
+UNITS.append(U(name='htp_tx_process_request_headers', props=['C11', 'C01'], kind='contract', src=['htp_transaction.c'], link=['bstr.c'],
                enforce='htp_tx_process_request_headers', replace=['%s/contract_c11_%s' % (f, f) for f in R1], contracts_inc=INC,
                harness='void HARNESS(void) { htp_tx_t *tx; htp_tx_process_request_headers(tx); CANARY(); }',
-               defs={'quick': {'C11_VALCAP': 32}}, min_obl=60,
+               defs={'quick': dict({'C11_VALCAP': 32}, **XD)}, min_obl=60,
                sub='the statement as a decision table over (T-E present, has chunked token, C-L present, C-L REPEATED/FOLDED, C-L value, protocol, target host, Host present/valid, '
                    'hosts equal, ports): every trigger raises its indicator and fixes the framing; indicators only grow; no indicator without trigger; '
                    'coding IDENTITY => content length >= 0; coding never left UNKNOWN',
